@@ -90,12 +90,6 @@ Proof. induction l as [|r l IH]; cbn; auto. Qed.
 Lemma cc_ok_touches_nil m d l : cc_ok m false d (cc_touches l) = cc_okd m false d.
 Proof. rewrite <- (app_nil_r (cc_touches l)), cc_ok_touches. reflexivity. Qed.
 
-Lemma cc_of_next_ok st f : cc_ok HNone false [] (cc_of_next st f) = true.
-Proof.
-  unfold cc_of_next.
-  destruct st as [|[|st]]; repeat match goal with |- context [if ?c then _ else _] => destruct c end; reflexivity.
-Qed.
-
 Lemma cc_ra_next_ok keys : cc_ok HR false [LkR] (cc_ra_next keys) = true.
 Proof. destruct keys; reflexivity. Qed.
 
@@ -122,7 +116,7 @@ Proof.
            | |- match (if ?x then _ else _) with _ => _ end => destruct x
            end;
     cbn [cc_ok cc_okd cc_hmu_eqb negb andb cc_ctx cc_ctx_eqb fst snd Bool.eqb cc_lks_eqb cc_lk_eqb];
-    try rewrite cc_of_next_ok; try rewrite cc_ra_next_ok; try rewrite cc_ok_touches_nil;
+    try rewrite cc_ra_next_ok; try rewrite cc_ok_touches_nil;
     auto.
 Qed.
 
@@ -800,12 +794,6 @@ Definition cc_nora (c : cc_cfg) : Prop :=
 Lemma nora_touches l : forallb cc_instr_nora (cc_touches l) = true.
 Proof. induction l; cbn; auto. Qed.
 
-Lemma nora_of_next st f : forallb cc_instr_nora (cc_of_next st f) = true.
-Proof.
-  unfold cc_of_next.
-  destruct st as [|[|st]]; repeat match goal with |- context [if ?c then _ else _] => destruct c end; reflexivity.
-Qed.
-
 Lemma cc_sem_nora a f s :
   cc_is_ra a = false ->
   match cc_sem a f s with CcCont _ _ code => forallb cc_instr_nora code = true | CcPanic _ => True end.
@@ -816,7 +804,7 @@ Proof.
            | |- match (match ?x with _ => _ end) with _ => _ end => destruct x
            | |- match (if ?x then _ else _) with _ => _ end => destruct x
            end;
-    cbn [forallb cc_instr_nora cc_is_ra negb andb]; rewrite ?forallb_app, ?nora_touches, ?nora_of_next; auto.
+    cbn [forallb cc_instr_nora cc_is_ra negb andb]; rewrite ?forallb_app, ?nora_touches; auto.
 Qed.
 
 Lemma cc_begin_nora lg o slots :
@@ -1080,7 +1068,7 @@ Proof.
            | |- match (if ?x then _ else _) with _ => _ end => destruct x
            end;
     try exact I; (split; [cbn; try rewrite Hop; reflexivity|]);
-    unfold cc_of_next, cc_ra_next; cbn [fr_op fr_set_res fr_set_ref fr_set_h fr_set_z fr_set_keys fr_set_created fr_created];
+    unfold cc_ra_next; cbn [fr_op fr_set_res fr_set_ref fr_set_h fr_set_z fr_set_keys fr_set_created fr_created];
     rewrite ?Hop;
     repeat match goal with |- context [if ?c then _ else _] => destruct c end;
     repeat match goal with |- context [match ?c with _ => _ end] => destruct c end;
@@ -1106,6 +1094,15 @@ Qed.
 Lemma tree_m_chtimes s name t : cc_tree_of (fst (m_chtimes s name t)) = cc_tree_of s.
 Proof.
   unfold m_chtimes. destruct (lookup s (normalize_path name)); [|reflexivity]. cbn. now apply tree_upd_node.
+Qed.
+
+Lemma tree_of_finish s x h flag : cc_tree_of (cc_of_finish s x h flag) = cc_tree_of s.
+Proof.
+  unfold cc_of_finish.
+  match goal with |- context [upd_node ?a _ _] => set (s1 := a) end.
+  assert (H1 : cc_tree_of s1 = cc_tree_of s).
+  { unfold s1. destruct (flag_has flag o_append); [|reflexivity]. destruct (nth_error (mhandles s) h); reflexivity. }
+  destruct (_ && _)%bool; [|exact H1]. rewrite tree_upd_node; [exact H1|intros; reflexivity].
 Qed.
 
 Section Transfer.
@@ -1181,6 +1178,14 @@ Section Transfer.
         destruct (cc_open_or_create s0 (normalize_path p0) fl (Z.land pm chmod_bits)) as [[s1 x]|] eqn:Hoc; [|exact HP];
         pose proof (Hofcreate s0 p0 fl pm s1 x HA Hoc HP) as H; eapply Htree; [|exact H]; reflexivity
       end ].
+    - (* AOfLookup: the handle is finished inside the section *)
+      destruct (lookup (cc_tick s) (normalize_path p)); [|exact HP]. unfold alloc_handle. cbv zeta beta iota.
+      eapply Htree; [|exact HP]. symmetry. now rewrite tree_of_finish.
+    - (* AOfCreate *)
+      cbn [cc_flag cc_perm].
+      destruct (cc_open_or_create (cc_tick s) (normalize_path p) flag (Z.land perm chmod_bits)) as [[s1 x]|] eqn:Hoc; [|exact HP].
+      pose proof (Hofcreate (cc_tick s) p flag perm s1 x HA Hoc HP) as H. unfold alloc_handle. cbv zeta beta iota.
+      eapply Htree; [|exact H]. symmetry. now rewrite tree_of_finish.
   Qed.
 
   Definition cc_th_for (th : cc_thread) : Prop :=
